@@ -27,7 +27,7 @@ def build_graph(g: dict, how: str = "auto") -> NxMixedGraph:
         # the public constructors by turns (a graph is the same graph however it was written down)
         import zlib
 
-        how = ["from_edges", "from_edges_partial_nodes", "from_str_edges", "from_adj", "from_str_adj", "copy", "subgraph", "from_edges"][zlib.crc32(("ctor" + graph_key(g)).encode()) % 8]
+        how = ["from_edges", "from_edges_partial_nodes", "from_str_edges", "from_adj", "from_str_adj", "copy", "subgraph", "from_edges", "dataclass"][zlib.crc32(("ctor" + graph_key(g)).encode()) % 9]
     nodes, di, bi = list(g["nodes"]), [tuple(e) for e in g["di"]], [tuple(e) for e in g["bi"]]
 
     def adj(pairs, wrap):
@@ -42,6 +42,17 @@ def build_graph(g: dict, how: str = "auto") -> NxMixedGraph:
         obj = NxMixedGraph.from_adj(nodes=[V(n) for n in nodes], directed=adj(di, V), undirected=adj(bi, V))
     elif how == "from_str_adj":
         obj = NxMixedGraph.from_str_adj(nodes=nodes, directed=adj(di, str), undirected=adj(bi, str))
+    elif how == "dataclass":
+        # the class's own constructor with two networkx graphs the caller filled himself; both hold every node, not
+        # necessarily in the same order
+        import networkx as nx
+
+        d_, u_ = nx.DiGraph(), nx.Graph()
+        u_.add_edges_from((V(u), V(v)) for u, v in bi)
+        d_.add_nodes_from(V(n) for n in nodes)
+        d_.add_edges_from((V(u), V(v)) for u, v in di)
+        u_.add_nodes_from(d_)
+        obj = NxMixedGraph(directed=d_, undirected=u_)
     elif how == "from_edges_partial_nodes":
         # nodes= only has to name the nodes no edge mentions (the documented way to keep an edgeless node); some of the
         # others are listed as well, in a hash-chosen pattern
